@@ -449,6 +449,7 @@ class Engine:
         self.violations = []  # dicts
         self.faults_fired = []
         self.outcomes = {}  # (caller, op_idx) -> outcome
+        self.op_steps = {}  # (caller, op_idx) -> pre-emption points inside the operation
         self.finished = [len(p) == 0 for p in programs]
         self.op_index = [0] * n
         self.op_local_steps = [0] * n
@@ -591,6 +592,7 @@ class Engine:
                 signal.signal(signal.SIGALRM, old)
             self.in_op[c] = False
         self.seq += 1
+        self.op_steps[(c, k)] = self.op_local_steps[c]
         self.outcomes[(c, k)] = out
         self.log("return", self.seq, c, k, hashlib.sha256(repr(out).encode()).hexdigest()[:16])
         self.op_index[c] = k + 1
